@@ -1,7 +1,7 @@
 """Exploration plans per property: which harness families / option sets are
 enumerated in the quick and thorough tiers, with which build variant."""
 
-HARNESS_SOURCES = ["engine.c", "ref.c", "qsx.c", "lpfam.c", "h_inst.c", "h_hist.c", "h_basis.c", "h_copy.c", "h_meta.c", "h_io.c", "h_esolver.c", "h_factor.c", "families.c"]  # keep in sync with harness/families.c
+HARNESS_SOURCES = ["engine.c", "ref.c", "qsx.c", "lpfam.c", "h_inst.c", "h_hist.c", "h_basis.c", "h_copy.c", "h_meta.c", "h_io.c", "h_esolver.c", "h_factor.c", "h_fuzzio.c", "families.c"]  # keep in sync with harness/families.c
 
 
 def lp(id, variant, fam, cfg="default", weight=1, **kw):
@@ -429,4 +429,41 @@ PLANS["C13"] = {
     "assumptions": ["the library may refuse an update and ask for refactorization; the harness then refactors as basis.c does and continues",
                     "mpq_QSget_binv_row / tableau_row may fail when no factorization or optimal solution is current: counted, not flagged"] + LP_ASSUME,
 }
+
+def rdr(id, variant, opts, weight=1, **kw):
+    return fam(id, variant, "rdr", opts, weight=weight, crash_props=["C17", "C11"], timeout=20, **kw)
+
+
+_c11_q = [rdr("rdr-trunc", "sanl1", {"mode": "trunc"}), rdr("rdr-trunc-reader", "sanl1", {"mode": "trunc", "via": "reader"}), rdr("rdr-trunc-gz", "sanl1", {"mode": "trunc", "comp": "gz"}),
+          rdr("rdr-trunc-bz2", "sanl1", {"mode": "trunc", "comp": "bz2"}), rdr("rdr-long", "sanl1", {"mode": "long"}), rdr("rdr-long-reader", "sanl1", {"mode": "long", "via": "reader"}),
+          rdr("rdr-tok-lp-k3", "sanl1", {"mode": "tok", "fmt": "lp", "k": 3}, weight=2), rdr("rdr-tok-lp-k2-reader", "sanl1", {"mode": "tok", "fmt": "lp", "k": 2, "via": "reader"}),
+          rdr("rdr-tok-mps-k2", "sanl1", {"mode": "tok", "fmt": "mps", "k": 2}), rdr("rdr-tok-mps-k2-reader", "sanl1", {"mode": "tok", "fmt": "mps", "k": 2, "via": "reader"}),
+          rdr("rdr-tok-bas-k4", "sanl1", {"mode": "tok", "fmt": "bas", "k": 4}, weight=4), rdr("rdr-mut", "sanl1", {"mode": "mut"}, weight=4), rdr("rdr-mut-reader", "sanl1", {"mode": "mut", "via": "reader"}, weight=4)]
+PLANS["C11"] = {
+    "title": "no input file can crash, hang or corrupt the reader",
+    "rule": ("exhaustive enumeration of finite neighbourhoods of 13 embedded valid files (6 LP, 5 MPS incl. SOS/REFROW, 2 basis): mode tok = every sequence of <= k tokens over a 24/33/11-token alphabet appended to each valid prefix; "
+             "mode mut = every single token edit (delete, duplicate, replace by each alphabet token, swap) at every token position and every byte edit (delete, 0x00, 0xFF, newline, ':', '/', '-', '9') at every byte position, radius=2 adds "
+             "every pair of token edits within a 6-token window; mode trunc = every byte prefix, plain and as a gzip/bzip2 stream cut at every byte; mode long = names, lines and digit strings around the internal buffer sizes "
+             "(126..256, 131070..131073 characters, 1..4000 digits). Each input goes through mpq_QSread_prob (and via=reader: the line-reader API with a memory error collector, every record walked and printed) or the basis readers; "
+             "oracle: the forked worker survives (sanitizer build), returns within 20 s, NULL or a problem that passes the full query-conformance dump against its own read-back, can be written in both formats, solved and freed; "
+             "fd 1/2 stay empty; allocation balance is zero; non-trivial = input differs from every base file and is not empty. Inputs with exponents of >= 5 digits are out of scope as the property says"),
+    "quick": _c11_q,
+    "thorough": _c11_q + [rdr("rdr-tok-lp-k4", "sanl1", {"mode": "tok", "fmt": "lp", "k": 4}, weight=12), rdr("rdr-tok-mps-k3", "sanl1", {"mode": "tok", "fmt": "mps", "k": 3}, weight=4),
+                          rdr("rdr-tok-bas-k5", "sanl1", {"mode": "tok", "fmt": "bas", "k": 5}, weight=8), rdr("rdr-mut2-bas", "sanl1", {"mode": "mut", "radius": 2, "fmt": "bas"}, weight=4),
+                          rdr("rdr-mut2-lp", "sanl1", {"mode": "mut", "radius": 2, "fmt": "lp"}, weight=16), rdr("rdr-tok-lp-k4-prod", "prodl1", {"mode": "tok", "fmt": "lp", "k": 4}, weight=4)],
+    "bounds": {"quick": "token sequences: LP <= 3, MPS <= 2, basis <= 4; all single token/byte edits of the 13 base files; all truncations incl. compressed; length family",
+               "thorough": "token sequences: LP <= 4 (1.38M), MPS <= 3, basis <= 5; all pairs of token edits within a 6-token window for basis and LP files"},
+    "evidence": {"states": ["instances"], "transitions": ["executions"], "nontrivial": ["instances_nontrivial"]},
+    "assumptions": ["the claim is over the enumerated neighbourhoods, not over all byte strings of up to 64 KiB",
+                    "sanl1 = sanitizer build with the one-level mpf ladder (the solve after a successful read is a smoke test, not the subject)"],
+}
+for _pid, _runs in (("C17", [rdr("rdr-mut", "sanl1", {"mode": "mut"}, weight=3), rdr("rdr-tok-lp-k3", "sanl1", {"mode": "tok", "fmt": "lp", "k": 3}, weight=1), rdr("rdr-trunc", "sanl1", {"mode": "trunc"}, weight=1)]),
+                    ("C18", [rdr("rdr-mut-reader", "sanl1", {"mode": "mut", "via": "reader"}, weight=3), rdr("rdr-trunc-reader", "sanl1", {"mode": "trunc", "via": "reader"}, weight=1), rdr("rdr-tok-mps-k2-reader", "sanl1", {"mode": "tok", "fmt": "mps", "k": 2, "via": "reader"}, weight=1)]),
+                    ("C20", [rdr("rdr-mut", "sanl1", {"mode": "mut"}, weight=3), rdr("rdr-long", "sanl1", {"mode": "long"}, weight=1)])):
+    for _r in _runs:
+        _r["crash_props"] = sorted(set(_r["crash_props"] + [_pid]))
+    PLANS[_pid]["quick"] = PLANS[_pid]["quick"] + _runs
+    PLANS[_pid]["thorough"] = PLANS[_pid]["thorough"] + _runs
+    PLANS[_pid]["evidence"]["states"] = PLANS[_pid]["evidence"]["states"] + (["instances"] if "instances" not in PLANS[_pid]["evidence"]["states"] else [])
+    PLANS[_pid]["evidence"]["transitions"] = PLANS[_pid]["evidence"]["transitions"] + (["executions"] if "executions" not in PLANS[_pid]["evidence"]["transitions"] else [])
 NOT_YET = {}
